@@ -1,20 +1,27 @@
 (* C02, Kafka share.
    Proved: termination on every end-of-stream kind (the Dissect loops never run out of the fuel
-   |input| + 1), monotone cost counters, and the local form of "no allocation in proportion to a
-   declared value": every allocation event is bounded by the bytes the message can still hold.
-   Not proved (kafka_C02_statement): the global linear bound steps <= a*n + b, alloc <= c*n + cap;
-   it needs the two-regime induction (elements decoded without error consume at least
-   min_wire >= 1 bytes each; after the first error nothing is allocated) that is sketched in
-   DESIGN 5.C02.  The implementation side of it is the measured budget in tools/fam/kafka.py c02. *)
+   |input| + 1); the number of steps (reads and loop iterations) of dissecting both halves is at
+   most (KT + ST + 6) * n for n bytes of connection, with KT, ST computed from the layout tables
+   (KafkaCost.v: a read that leaves no error consumes at least a byte, an array iteration decodes
+   an element of at least one byte or is the last one, after the first error every loop stops);
+   monotone cost counters; the local form of "no allocation in proportion to a declared value":
+   every allocation event is bounded by the bytes the message can still hold.
+   Not proved (kafka_C02_alloc_statement): the global linear allocation bound alloc <= c*n + cap;
+   it needs the same two-regime induction as the step bound with the allocation of an array
+   charged to the elements that follow.  The implementation side is the measured budget in
+   tools/fam/kafka.py c02. *)
 Require Import V.Base.Prelude V.Kafka.KafkaTy V.Kafka.KafkaModel V.Kafka.KafkaLift V.Kafka.KafkaFrame V.Kafka.KafkaC01.
+Require Import V.Kafka.KafkaCost.
 Require Import Coq.Strings.String.
 Local Open Scope Z_scope.
 
-Definition kafka_C02_statement : Prop :=
-  exists a b c cap, forall T client server t, tables_plain T ->
-    let r := dissect T client server t in
-    let n := blen client + blen server in
-    r_steps r <= a * n + b /\ r_alloc r <= c * n + cap.
+Definition kafka_C02_alloc_statement : Prop :=
+  forall T, tables_plain T -> tables_arrays_ok T -> exists c cap, forall client server t,
+    r_alloc (dissect T client server t) <= c * (blen client + blen server) + cap.
+
+Theorem kafka_C02_steps : forall T client server t, tables_plain T -> tables_arrays_ok T ->
+  r_steps (dissect T client server t) <= (KT T + ST T + 6) * (blen client + blen server).
+Proof. exact kafka_steps_linear. Qed.
 
 Theorem kafka_C02_terminates : forall T client server t, tables_plain T ->
   r_client (dissect T client server t) <> NoFuel /\ r_server (dissect T client server t) <> NoFuel.
